@@ -1,10 +1,10 @@
 package props
 
 import (
-	"regexp"
 	"fmt"
 	"go/token"
 	"go/types"
+	"regexp"
 	"sort"
 	"strings"
 
@@ -178,11 +178,11 @@ func runC18(c *Ctx) {
 	r.Explanation = "Crash-freedom of lease loading, decided on the code of handlers/dhcp4_spoofer. (nil-deref) Every pointer that may be nil because of the decoded file — the pointer fields of the struct handed to yaml.Unmarshal, nil merged through φs, " +
 		"fields assigned such values, results of functions that can return nil with a nil error — is an obligation at each place it is dereferenced; the obligation is discharged when the path-sensitive interpreter (nil tests refine the pointer) proves it non-nil there in every state, starting from Config.New and from loadByteArray with arbitrary file contents. " +
 		"(insert-guards) the insertion of a loaded lease into the table is dominated by State == Allocated, a valid address inside the home subnet and a non-empty client id. (reset) Config.New keeps the loaded tables only on the branch where err == nil, both subnets and the table are non-nil and the configuration is unchanged. " +
-		"(persist) handleRequest passes saveConfig on the path that acknowledges; saveConfig writes only allocated leases. Trusted: yaml.Unmarshal itself does not panic. Not decided: which bindings a truncated file yields."
+		"(persist) handleRequest passes saveConfig on the path that acknowledges; saveConfig writes only allocated leases. Trusted: yaml.Unmarshal itself does not panic. (complete-file) writer and reader use one structure whose last field is a lease count, set by saveConfig after the list is complete and compared by loadByteArray before any table is returned, so a file cut short anywhere is refused whole. Not decided: which bindings a file damaged otherwise than by truncation yields."
 	r.Rule("nil-deref", "dereferences of pointers whose nil-ness depends on the lease file are proved non-nil", 4)
 	r.Rule("insert-guards", "a loaded lease enters the table only when allocated, inside the home subnet and with a client id; net2 only for captured MACs", 6)
 	r.Rule("reset", "New falls back to fresh tables unless the loaded state is complete and matches the configuration", 1)
-	r.Rule("persist", "acknowledged leases are saved; only allocated leases are written; the file is replaced whole", 3)
+	r.Rule("persist", "acknowledged leases are saved under a non-empty key; only allocated leases are written; the file is replaced whole", 4)
 
 	const rel = "handlers/dhcp4_spoofer"
 	pk := c.P.Pkg(rel)
@@ -459,6 +459,222 @@ func runC18(c *Ctx) {
 		r.Add(core.Obligation{Rule: "persist", Key: "persist handleRequest saves the acknowledged lease", Func: core.FuncName(fn), Pos: c.P.Pos(fn.Pos()), Status: st,
 			Basis: "every path from the ACK construction to a return passes saveConfig", Detail: det})
 	}
+	// the key a binding is saved under is never empty: the loader refuses a lease without a client identifier, so a
+	// binding acknowledged under an empty option 61 (RFC 2132 wants at least two octets) would not come back
+	if fn := c.P.Func(rel, "getClientID"); fn != nil {
+		nOpt := 0
+		core.EachInstr(fn, func(i ssa.Instruction) {
+			ret, ok := i.(*ssa.Return)
+			if !ok || len(ret.Results) != 1 {
+				return
+			}
+			type edge struct {
+				v    ssa.Value
+				from *ssa.BasicBlock
+				to   *ssa.BasicBlock
+			}
+			var edges []edge
+			if phi, isPhi := ret.Results[0].(*ssa.Phi); isPhi {
+				for k, e := range phi.Edges {
+					edges = append(edges, edge{e, phi.Block().Preds[k], phi.Block()})
+				}
+			} else {
+				edges = append(edges, edge{ret.Results[0], nil, ret.Block()})
+			}
+			for _, e := range edges {
+				ex, isEx := e.v.(*ssa.Extract)
+				if !isEx {
+					continue
+				}
+				if _, isLk := ex.Tuple.(*ssa.Lookup); !isLk {
+					continue
+				}
+				nOpt++
+				want := regexp.MustCompile(`^(!\(len\(` + regexp.QuoteMeta(norm(e.v)) + `\)==0\)|\(len\(` + regexp.QuoteMeta(norm(e.v)) + `\)>0\))$`)
+				var gs []Guard
+				if e.from == nil {
+					gs = guardsOf(ret)
+				} else {
+					last := e.from.Instrs[len(e.from.Instrs)-1]
+					gs = guardsOf(last)
+					if iff, isIf := last.(*ssa.If); isIf && e.from.Succs[0] != e.from.Succs[1] {
+						// the condition of the edge itself
+						cond, pol := iff.Cond, e.from.Succs[0] == e.to
+						for {
+							if u, ok := cond.(*ssa.UnOp); ok && u.Op == token.NOT {
+								cond, pol = u.X, !pol
+								continue
+							}
+							break
+						}
+						txt := norm(cond)
+						if bo, ok := cond.(*ssa.BinOp); ok && bo.Op == token.NEQ {
+							txt, pol = "("+norm(bo.X)+"=="+norm(bo.Y)+")", !pol
+						}
+						if !pol {
+							txt = "!" + txt
+						}
+						gs = append(gs, Guard{Cond: cond, Pol: pol, Branch: e.from, Text: txt})
+					}
+				}
+				st := core.Proved
+				for _, g := range gs {
+					if want.MatchString(g.Text) {
+						st = core.Proved
+						goto done
+					}
+				}
+				st = core.Violated
+			done:
+				r.Add(core.Obligation{Rule: "persist", Key: "persist getClientID returns option 61 only when it is not empty", Func: core.FuncName(fn), Pos: c.P.Pos(core.PosOf(ret)), Status: st,
+					Basis: "guards: " + guardTexts(gs), Detail: "getClientID returns the value of option 61 without testing that it is not empty (guards: " + guardTexts(gs) + "): a client sending an empty option 61 is acknowledged under the key \"\", and the loader drops a lease without a client identifier: the acknowledged binding does not survive a restart"})
+			}
+		})
+		if nOpt == 0 {
+			r.Add(core.Obligation{Rule: "persist", Key: "persist getClientID returns option 61 only when it is not empty", Func: core.FuncName(fn), Status: core.Undecided, Detail: "getClientID no longer returns the looked-up option value in a recognised form"})
+		}
+	}
+	// ---- complete-file ----
+	// A YAML file cut short still parses, with the last lease missing or its last value shortened (ip 192.168.0.100 cut to
+	// 192.168.0.1): the loader can tell only if the writer puts something last that the loader checks. Writer and reader
+	// use the same structure; its last field is a count the writer sets to the number of leases after collecting them and
+	// the reader compares with the number of leases read before it returns a table.
+	r.Rule("complete-file", "the lease file ends with a lease count that the loader checks", 4)
+	{
+		load := c.P.Method(rel, "Handler", "loadByteArray")
+		save := c.P.Method(rel, "Handler", "saveConfig")
+		structOf := func(fn *ssa.Function, callee string) *types.Struct {
+			var out *types.Struct
+			for _, site := range callsIn(fn, func(n string, _ ssa.CallInstruction) bool { return n == callee }) {
+				for _, a := range site.Common().Args {
+					v := a
+					if mi, ok := v.(*ssa.MakeInterface); ok {
+						v = mi.X
+					}
+					if pt, ok := v.Type().Underlying().(*types.Pointer); ok {
+						if st, ok := pt.Elem().Underlying().(*types.Struct); ok {
+							out = st
+						}
+					}
+				}
+			}
+			return out
+		}
+		var ls, ss *types.Struct
+		if load != nil && save != nil {
+			ls, ss = structOf(load, "gopkg.in/yaml.v2.Unmarshal"), structOf(save, "gopkg.in/yaml.v2.Marshal")
+		}
+		if ls == nil || ss == nil {
+			r.Add(core.Obligation{Rule: "complete-file", Key: "complete-file structures found", Func: "-", Status: core.Undecided, Detail: "the structure handed to yaml.Marshal in saveConfig or to yaml.Unmarshal in loadByteArray was not found"})
+		} else {
+			st := core.Proved
+			if !types.Identical(ls, ss) {
+				st = core.Violated
+			}
+			r.Add(core.Obligation{Rule: "complete-file", Key: "complete-file writer and reader use the same structure", Func: core.FuncName(save), Status: st,
+				Basis: "types.Identical on the structures of yaml.Marshal and yaml.Unmarshal", Detail: "saveConfig writes " + ss.String() + " and loadByteArray reads " + ls.String()})
+			last := ss.Field(ss.NumFields() - 1)
+			isInt := false
+			if b, ok := last.Type().Underlying().(*types.Basic); ok && b.Info()&types.IsInteger != 0 {
+				isInt = true
+			}
+			st = core.Proved
+			if !isInt {
+				st = core.Violated
+			}
+			r.Add(core.Obligation{Rule: "complete-file", Key: "complete-file the structure ends with a count", Func: core.FuncName(save), Status: st,
+				Basis: "last field " + last.Name() + " " + last.Type().String(), Detail: "the last field written to the lease file is " + last.Name() + " " + last.Type().String() + ", not a count: a file cut short parses as a shorter table or with a shortened last value (192.168.0.100 read as 192.168.0.1) and the loader cannot tell"})
+			if isInt {
+				re := `^\(local\(\w+\)\.` + last.Name() + `==len\(local\(\w+\)\.Leases\)\)$`
+				// reader: every successful return and every insertion under the count test
+				okR, nR := true, 0
+				where := ""
+				core.EachInstr(load, func(i ssa.Instruction) {
+					switch t := i.(type) {
+					case *ssa.Return:
+						if k, isC := t.Results[len(t.Results)-1].(*ssa.Const); !isC || !k.IsNil() {
+							return
+						}
+					case *ssa.MapUpdate:
+					default:
+						return
+					}
+					nR++
+					if !hasGuard(guardsOf(i), re) {
+						okR = false
+						where = c.P.Pos(core.PosOf(i))
+					}
+				})
+				st = core.Proved
+				if !okR || nR == 0 {
+					st = core.Violated
+				}
+				r.Add(core.Obligation{Rule: "complete-file", Key: "complete-file the loader returns a table only when the count matches", Func: core.FuncName(load), Status: st,
+					Basis: fmt.Sprintf("%d successful returns and insertions under %s == len(Leases)", nR, last.Name()), Detail: "loadByteArray reaches " + where + " without having compared the saved count with the number of leases read"})
+				// writer: the count is the number of leases, set after the last change to the list
+				okW := false
+				core.EachInstr(save, func(i ssa.Instruction) {
+					s, ok := i.(*ssa.Store)
+					if !ok || !regexp.MustCompile(`^local\(\w+\)\.`+last.Name()+`$`).MatchString(norm(s.Addr)) {
+						return
+					}
+					if !regexp.MustCompile(`^len\(local\(\w+\)\.Leases\)$`).MatchString(norm(s.Val)) {
+						return
+					}
+					later := false
+					core.EachInstr(save, func(j ssa.Instruction) {
+						if s2, ok := j.(*ssa.Store); ok && strings.HasSuffix(norm(s2.Addr), ".Leases") && reachesWithout(i, j, func(ssa.Instruction) bool { return false }) {
+							later = true
+						}
+					})
+					dom := false
+					for _, m := range callsIn(save, func(n string, _ ssa.CallInstruction) bool { return n == "gopkg.in/yaml.v2.Marshal" }) {
+						mi := m.(ssa.Instruction)
+						if i.Block() == mi.Block() && core.InstrIndex(i) < core.InstrIndex(mi) || i.Block() != mi.Block() && i.Block().Dominates(mi.Block()) {
+							dom = true
+						}
+					}
+					if !later && dom {
+						okW = true
+					}
+				})
+				st = core.Proved
+				if !okW {
+					st = core.Violated
+				}
+				r.Add(core.Obligation{Rule: "complete-file", Key: "complete-file the writer sets the count to the number of leases", Func: core.FuncName(save), Status: st,
+					Basis: last.Name() + " = len(Leases) dominates yaml.Marshal, no later change of the list", Detail: "saveConfig does not set " + last.Name() + " to len(Leases) after the list is complete and before yaml.Marshal: every file it writes is rejected, or a stale count is accepted"})
+			}
+		}
+	}
+	// a restored binding is what the file says: loadByteArray assigns nothing to a loaded lease except the subnet it
+	// attaches it to (a substituted client identifier yields a binding that is absent from the file)
+	if fn := c.P.Method(rel, "Handler", "loadByteArray"); fn != nil {
+		kgl := core.NewKeyGen()
+		nStores := 0
+		core.EachInstr(fn, func(i ssa.Instruction) {
+			st, ok := i.(*ssa.Store)
+			if !ok {
+				return
+			}
+			fa, isFA := st.Addr.(*ssa.FieldAddr)
+			if !isFA || !strings.HasPrefix(fieldOwner(fa), "dhcp4_spoofer.Lease.") {
+				return
+			}
+			if al, isAl := fa.X.(*ssa.Alloc); !isAl || al.Comment == "complit" {
+				return
+			}
+			nStores++
+			f := strings.TrimPrefix(fieldOwner(fa), "dhcp4_spoofer.Lease.")
+			s2 := core.Proved
+			if f != "subnet" {
+				s2 = core.Violated
+			}
+			key := strings.TrimSuffix(kgl.Key("insert-guards loadByteArray assigns only the subnet of a loaded lease: "+f), "#0")
+			r.Add(core.Obligation{Rule: "insert-guards", Key: key, Func: core.FuncName(fn), Pos: c.P.Pos(core.PosOf(i)), Status: s2,
+				Basis: "field assigned: " + f, Detail: "loadByteArray assigns " + f + " of a lease read from the file (" + norm(st.Val) + "): the binding restored is not the one the file holds"})
+		})
+	}
 	// netip.Addr.As4 panics on anything but an IPv4 address: in the package that builds its subnets from the lease file,
 	// every As4 call is under an Is4 test of the address it converts (a damaged file can name an IPv6 prefix)
 	r.Rule("as4-guarded", "As4 is called only on addresses tested with Is4", 1)
@@ -541,7 +757,6 @@ func sortedKeys(m map[string]bool) []string {
 	return out
 }
 
-
 // subnetOfPrefix: v is X.SubnetConfig.LAN (loaded); returns X.
 func subnetOfPrefix(v ssa.Value) ssa.Value {
 	ld, ok := v.(*ssa.UnOp)
@@ -557,7 +772,6 @@ func subnetOfPrefix(v ssa.Value) ssa.Value {
 	}
 	return fa.X
 }
-
 
 // leaseLocalField: text is local(<any name>).<field> - the rules about the lease being restored do not depend on
 // what the loop variable is called.
